@@ -45,7 +45,7 @@ def check_jobs(ctx, jobs, layers_choices, length):
         return
     for (case, desc, ops, outs, log, tape), ans in zip(metas, answers):
         kind, val, mlog = gsuite.decode(desc, ans)
-        if kind != 'ok' or val != outs or impl.norm_log(mlog) != impl.norm_log(log):
+        if kind != 'ok' or not core.same(val, outs) or impl.norm_log(mlog) != impl.norm_log(log):
             first = next((i for i, (a, b) in enumerate(zip(val or [], outs)) if a != b), None) if kind == 'ok' else None
             ctx.disagreement('gym / outer / inner machine: implementation and model differ',
                              dict(case, desc=desc, raw_ops=ops, model_kind=kind, first_difference=first,
